@@ -592,7 +592,15 @@ def check_parsers(rep, prog):
     # allele order == call order
     oko = has(t, "snp_dict['segregating'] = (ref, alt)") and t.count("refcalls += gt[::2].count('0')") == 2 and t.count("altcalls += gt[::2].count('1')") == 2 and \
         t.count('calls_dict[pop] = (refcalls, altcalls)') == 2 and t.count('refcalls, altcalls = calls_dict[pop]') == 2
-    rep.ob('R-IDX', 'make_data_dict_vcf allele order', oko, "segregating = (ref, alt); calls = (count of '0', count of '1')", m.rel, fn.lineno, what="calls are stored in the order of 'segregating'")
+    deto = "segregating = (ref, alt); calls = (count of '0', count of '1')"
+    if not oko:
+        # recognisably wrong (an exchanged pair), or written in a way this rule does not follow
+        flat_t = t.replace(' ', '')
+        swapped = [x for x in ("snp_dict['segregating']=(alt,ref)", "refcalls+=gt[::2].count('1')", "altcalls+=gt[::2].count('0')", 'calls_dict[pop]=(altcalls,refcalls)', 'altcalls,refcalls=calls_dict[pop]')
+                   if x in flat_t]
+        half = t.count("refcalls += gt[::2].count('0')") != t.count("altcalls += gt[::2].count('1')")
+        deto = ('exchanged: %s' % swapped[0]) if swapped else ('reference and alternative calls are counted at different numbers of sites' if half else 'genotype counting statements not found in the form the rule follows')
+    rep.ob('R-IDX', 'make_data_dict_vcf allele order', oko, deto, m.rel, fn.lineno, what="calls are stored in the order of 'segregating'")
     # outgroup
     okg = has(t, "for field in info:\n    if field.startswith('AA=') or field.startswith('AA_ensembl=') or field.startswith('AA_chimp='):\n        outgroup_allele = field.split('=')[1].upper().split('|')[0]") and has(t, "outgroup_allele = field.split('=')[1].upper().split('|')[0]") and \
         has(t, "snp_dict['outgroup_allele'] = outgroup_allele") and flat("else:outgroup_allele='-'snp_dict['outgroup_allele']") in flat(t) and \
@@ -618,12 +626,16 @@ def check_parsers(rep, prog):
         arm_stores = [s for s in stores_all if arm is not None and isinstance(arm, ast.If) and any(s is y for x in arm.body for y in ast.walk(x))]
         oks = len(brk) == 1 and ast.unparse(brk[0].test) == 'len(genotypes) < subsample[pop]' and len(ch) == 1 and \
             ast.unparse(ch[0].args[1]) == 'subsample[pop]' and any(k.arg == 'replace' and ast.unparse(k.value) == 'False' for k in ch[0].keywords) and \
-            ast.unparse(ch[0].args[0]) in ('[i for i in range(0, len(genotypes))]', '[i for i in range(len(genotypes))]', 'range(len(genotypes))', 'len(genotypes)') and \
+            ast.unparse(ch[0].args[0]) in ('[i for i in range(0, len(genotypes))]', '[i for i in range(len(genotypes))]', 'range(len(genotypes))', 'len(genotypes)', 'list(range(len(genotypes)))',
+                                           'list(range(0, len(genotypes)))', 'numpy.arange(len(genotypes))') and \
             len(in_else) == 1 and arm_stores == in_else and "snp_dict['calls'] = calls_dict" in stores_else and \
             lp.body.index(brk[0]) < [i for i, s in enumerate(lp.body) if any(c is ch[0] for c in ast.walk(s))][0]
         det = 'choice(range(len(genotypes)), subsample[pop], replace=False) after `if len(genotypes) < subsample[pop]: break`; SNP stored in the for/else only'
         idxl = [n for n in lp.body if isinstance(n, ast.For) and ast.unparse(n.iter) == 'idx']
-        oks = oks and len(idxl) == 1 and 'gt = subsample_dict[pop][ii]' in ast.unparse(idxl[0])
+        # the drawn individuals are read from the list the draw was made over (the loop target of subsample_dict.items() or the entry itself)
+        gname = lp.target.elts[1].id if isinstance(lp.target, ast.Tuple) and len(lp.target.elts) == 2 and isinstance(lp.target.elts[1], ast.Name) else 'genotypes'
+        reads = [ast.unparse(x) for l_ in idxl for x in ast.walk(l_) if isinstance(x, ast.Subscript) and ast.unparse(x.slice) == 'ii']
+        oks = oks and len(idxl) == 1 and any(r_ in ('subsample_dict[pop][ii]', '%s[ii]' % gname) for r_ in reads)
     rep.ob('R-DOM', 'make_data_dict_vcf subsampling', oks, det, m.rel, fn.lineno,
            what='exactly subsample[pop] distinct individuals per population and SNP; SNPs with too few calls in any population are dropped')
     # SNP-file parser
@@ -820,7 +832,15 @@ def check_statistics(rep, prog, tier):
             ref = parse_expr(want).subs({'A%d' % i: Rat.atom(a) for i, a in enumerate(names)})
             ok = got.equals(ref) and guard_1d(fn) and n_is_sample_size(fn)
             if q == 'pi':
-                ok = ok and any(ast.unparse(s) == 'p = numpy.arange(0, n + 1, dtype=float) / n' for s in fn.body)
+                # p = i/n for i = 0..n: numpy.arange(0, n + 1) or numpy.arange(n + 1), as floats, divided by n
+                okp = False
+                for s_ in fn.body:
+                    if isinstance(s_, ast.Assign) and ast.unparse(s_.targets[0]) == 'p' and isinstance(s_.value, ast.BinOp) and isinstance(s_.value.op, ast.Div) and ast.unparse(s_.value.right) == 'n' \
+                            and isinstance(s_.value.left, ast.Call) and dotted(s_.value.left.func) in ('numpy.arange', 'np.arange'):
+                        a_ = [ast.unparse(x) for x in s_.value.left.args]
+                        kw_ = {k.arg: ast.unparse(k.value) for k in s_.value.left.keywords}
+                        okp = a_ in (['0', 'n + 1'], ['n + 1']) and kw_ in ({'dtype': 'float'}, {})
+                ok = ok and okp
             det = 'returns %s' % got.canon()
         except (AlgebraError, IndexError) as e:
             det = 'not recognised: %s' % e
